@@ -35,6 +35,18 @@ def gen(tier, seed, shard, nshards):
             if idx % nshards == shard:
                 yield "dag", {"p": p, "code3": code}
             idx += 1
+    # relabelled chains (long directed paths) x every count x a dozen seeds
+    c = 0
+    for p in range(5, 17):
+        for rep in range(2):
+            if c % nshards == shard:
+                rng = util.rng_for("C18", seed, "chain", p, rep)
+                order = [int(v) for v in rng.permutation(p)]
+                out = [0] * p
+                for a in range(p - 1):
+                    out[order[a]] |= 1 << order[a + 1]
+                yield "chain", {"A": gmat.to_np(out, dtype=float if rep else int), "seeds": list(range(12))}
+            c += 1
     for k in range(N[tier]["random"]):
         if k % nshards == shard:
             rng = util.rng_for("C18", seed, "r", k)
@@ -107,7 +119,12 @@ def _judge_one(U, op, A, out, k, rs, family, case, rec):
             rec.violation("C18:add-cyclic", family, case, "add_edges result has a cycle / two-cycle / self-loop", returned=R, **ctx)
         if k == cap and k > 0:
             rec.count("add:to-complete")
-    # determinism in random_state
+    # determinism in random_state - also after the caller overwrote the array he was given
+    Rc = R.copy()
+    if R.flags.writeable and (k + E) % 2:
+        R[...] = 5
+        rec.count("repeat-after-caller-overwrote-result")
+    R = Rc
     try:
         R2 = np.asarray(fn(A, k, **kw))
         if R2.shape != R.shape or not (R2 == R).all():
@@ -122,6 +139,10 @@ def judge(family, case, rec):
         out = G.dag_from_code3(case["p"], case["code3"])
         A = gmat.to_np(out, dtype=int if case["code3"] % 2 else float)
         seeds = N[rec.tier]["seeds"]
+    elif family == "chain":
+        A = case["A"]
+        out = gmat.masks(A)
+        seeds = tuple(case["seeds"])
     else:
         A = case["A"]
         out = gmat.masks(A)
@@ -131,7 +152,8 @@ def judge(family, case, rec):
     E = G.n_edges(out)
     full = p * (p - 1) // 2
     for op, cap in (("remove", E), ("add", full - E)):
-        ks = range(0, cap + 2) if family == "dag" else sorted(set([0, cap, cap + 1, max(0, cap // 2), 1]))
+        ks = range(0, cap + 2) if family == "dag" else (sorted(set([0, cap, cap + 1, max(0, cap // 2), 1])) if family != "chain" else
+                                                        sorted(set([1, 2, 3, cap // 2, cap])) if op == "add" else [1])
         for k in ks:
             for rs in seeds:
                 rec.case(family, {"graph": case, "op": op, "count": k, "rs": rs}, bool(k > 0 and (E >= 1 or p >= 3)),
